@@ -303,20 +303,24 @@ fn kinds_for(scenario: &str, r: &mut Rng) -> Vec<ColKind> {
 pub fn gen(scenario: &str, tier: Tier, seed: u64) -> (RunCfg, Vec<Op>) {
 	let mut r = Rng::new(seed ^ 0x5151_0000);
 	let quick = tier == Tier::Quick;
-	let kinds = kinds_for(scenario, &mut r);
+	let mut kinds = kinds_for(scenario, &mut r);
+	// swarm: some runs of the fault scenarios carry an index-growth workload in column 0
+	let growth = scenario == "reindex" ||
+		(matches!(scenario, "crash" | "power" | "drop" | "struct" | "ioerr" | "logfuzz") && r.chance(1, 8));
+	if growth && scenario != "reindex" {
+		kinds[0] = ColKind::HashUniform;
+	}
 	let has_uniform = kinds.iter().any(|k| *k == ColKind::HashUniform);
-	let salt_zero = match scenario {
-		"reindex" => true,
-		_ => has_uniform && r.chance(1, 3),
-	};
+	let salt_zero = if growth { true } else { has_uniform && r.chance(1, 3) };
 	let big_max: u32 = if quick { 70_000 } else if r.chance(1, 10) { 3_000_000 } else { 140_000 };
 	let faulty = matches!(scenario, "crash" | "power" | "drop" | "logfuzz" | "ioerr");
 	let long_keys = r.chance(1, 40);
 	set_palette(&mut r, kinds[0], big_max);
 	let mut cols = Vec::new();
-	for k in &kinds {
+	for (ci, k) in kinds.iter().enumerate() {
 		let nkeys = match scenario {
 			"reindex" => 0, // filled below
+			_ if growth && ci == 0 => 0,
 			"btree" => (if quick { *r.pick(&[6u64, 12, 24, 48, 90, 140]) } else { r.range(8, 400) }) as usize,
 			_ => (if quick { r.range(3, 24) } else { r.range(4, 64) }) as usize,
 		};
@@ -336,6 +340,8 @@ pub fn gen(scenario: &str, tier: Tier, seed: u64) -> (RunCfg, Vec<Op>) {
 	}
 	if scenario == "reindex" {
 		crate::gen2::reindex_keys(&mut r, &mut cols, tier);
+	} else if growth {
+		crate::gen2::reindex_keys(&mut r, &mut cols[..1], tier);
 	}
 	let power = scenario == "power";
 	let buggify = faulty || r.chance(1, 2);
@@ -352,8 +358,17 @@ pub fn gen(scenario: &str, tier: Tier, seed: u64) -> (RunCfg, Vec<Op>) {
 		eintr_one_in: if buggify && r.chance(1, 4) { 20 } else { 0 },
 		disk_seed: r.next(),
 	};
+	let mut cfg = cfg;
+	if !matches!(scenario, "admin" | "migrate") && r.chance(1, 5) {
+		crate::gen2::edge_keys(&mut Rng::new(seed ^ 0xed9e_0000), &mut cfg);
+	}
 	let ops = gen_ops(&mut r, &cfg, tier, big_max);
 	(cfg, ops)
+}
+
+/// Column 0 carries an index-growth key set (identity hash, more than 60 keys of one page).
+pub fn growth_workload(cfg: &RunCfg) -> bool {
+	cfg.salt_zero && cfg.cols.first().map_or(false, |c| c.kind == ColKind::HashUniform && c.keys.len() >= 60)
 }
 
 fn gen_tx(r: &mut Rng, cfg: &RunCfg, big_max: u32, tree_state: &mut crate::gen2::TreeGen) -> Vec<(u8, TxOp)> {
@@ -384,7 +399,7 @@ fn gen_tx(r: &mut Rng, cfg: &RunCfg, big_max: u32, tree_state: &mut crate::gen2:
 			}
 		}
 	}
-	if cfg.scenario == "reindex" && r.chance(2, 5) {
+	if growth_workload(cfg) && r.chance(2, 5) {
 		// bulk insert into the collision group so that one index page overflows
 		let ucols: Vec<u8> =
 			(0..ncols).filter(|c| cfg.cols[*c].kind == ColKind::HashUniform).map(|c| c as u8).collect();
@@ -488,6 +503,7 @@ fn gen_ops(r: &mut Rng, cfg: &RunCfg, tier: Tier, big_max: u32) -> Vec<Op> {
 		"logfuzz" => w.logfuzz = 6,
 		"ioerr" => w.ioerr = 8,
 		"reject" => w.reject = 10,
+		"tree" => w.reject = 2,
 		"treelock" => w.locktree = 5,
 		"admin" => w.admin = 6,
 		_ => {},
@@ -499,13 +515,20 @@ fn gen_ops(r: &mut Rng, cfg: &RunCfg, tier: Tier, big_max: u32) -> Vec<Op> {
 		w.ioerr = 0;
 		w.logfuzz = 0;
 	}
-	let mut pipe = Pipe { reindex_bias: scenario == "reindex", ..Pipe::default() };
+	let mut pipe = Pipe { reindex_bias: growth_workload(cfg), ..Pipe::default() };
 	let mut ops = Vec::new();
 	if scenario == "treelock" && r.chance(1, 3) {
 		ops = treelock_pattern(r, cfg);
 	}
 	let mut tree_state = crate::gen2::TreeGen::new(cfg);
 	let mut crashes = 0;
+	if matches!(scenario, "crash" | "power" | "drop" | "ioerr" | "struct") && w.crash + w.ioerr > 0 && cfg.sync_data && r.chance(1, 6) {
+		ops = rotation_pattern(r, cfg, big_max, &mut tree_state, quick);
+		for op in &ops {
+			pipe.apply(op);
+		}
+		crashes += 1;
+	}
 	while ops.len() < n {
 		let choice = r.weighted(&[
 			w.commit, w.step, w.restart, w.drain, w.crash, w.iter, w.ioerr, w.logfuzz, w.locktree, w.admin, w.reject,
@@ -521,7 +544,7 @@ fn gen_ops(r: &mut Rng, cfg: &RunCfg, tier: Tier, big_max: u32) -> Vec<Op> {
 				}
 				crashes += 1;
 				let inner = match r.below(20) {
-					0..=4 if scenario == "reindex" => Op::Step(*r.pick(&[Stage::ProcessReindex, Stage::EnactAll, Stage::EnactOne, Stage::Clean])),
+					0..=4 if growth_workload(cfg) => Op::Step(*r.pick(&[Stage::ProcessReindex, Stage::EnactAll, Stage::EnactOne, Stage::Clean])),
 					0..=13 => Op::Step(pipe.pick_stage(r)),
 					14..=15 => Op::Restart,
 					16..=17 => Op::Drain,
@@ -575,6 +598,10 @@ fn gen_ops(r: &mut Rng, cfg: &RunCfg, tier: Tier, big_max: u32) -> Vec<Op> {
 				None => continue,
 			},
 			9 => match crate::gen2::gen_admin(r, cfg) {
+				Some(op) => op,
+				None => continue,
+			},
+			_ if scenario == "tree" => match crate::gen2::gen_unrepresentable(r, cfg, &tree_state) {
 				Some(op) => op,
 				None => continue,
 			},
@@ -647,6 +674,80 @@ impl PipeLike for Pipe {
 	fn tuple(&self) -> PipeViewSrc {
 		(self.queued, self.appending, self.unread, self.dirty)
 	}
+}
+
+/// Scripted prefix for the fault scenarios (the rest of the run is random as usual): log files
+/// are recycled so that the older of two consumed logs carries the higher file number, both touch
+/// common keys, and the reclaiming step is the one that is crashed / failed.
+fn rotation_pattern(r: &mut Rng, cfg: &RunCfg, big_max: u32, ts: &mut crate::gen2::TreeGen, quick: bool) -> Vec<Op> {
+	let scenario = cfg.scenario.as_str();
+	let mut ops = Vec::new();
+	let filler = |ops: &mut Vec<Op>, r: &mut Rng| {
+		if r.chance(1, 4) {
+			ops.push(Op::Step(*r.pick(&[Stage::ProcessReindex, Stage::ProcessCommits])));
+		}
+	};
+	// writer files are taken lazily by the first record written after a rotation: record 1 goes
+	// to log0, record 2 to log1; log0 alone is consumed and reclaimed, so that record 3 reuses
+	// log0 while log1 (older) is still waiting
+	let tx1 = gen_tx(r, cfg, big_max, ts);
+	ops.push(Op::Commit(tx1));
+	ops.push(Op::Step(Stage::ProcessCommits));
+	ops.push(Op::Step(Stage::Flush));
+	let tx2 = gen_tx(r, cfg, big_max, ts);
+	let has_tree = tx2.iter().any(|(c, _)| cfg.cols[*c as usize].kind.is_tree());
+	let tx3: Vec<(u8, TxOp)> = if has_tree || tx2.is_empty() || r.chance(1, 3) {
+		gen_tx(r, cfg, big_max, ts)
+	} else {
+		// the same keys again with other values
+		tx2.iter()
+			.map(|(c, op)| {
+				let kind = cfg.cols[*c as usize].kind;
+				match op {
+					TxOp::Set(k, v) if !kind.is_preimage() && !kind.is_rc() => (*c, TxOp::Set(*k, ValSpec { seed: r.next(), ..*v })),
+					TxOp::Del(k) if !kind.is_preimage() && !kind.is_rc() => (*c, TxOp::Set(*k, gen_val(r, kind, big_max))),
+					o => (*c, o.clone()),
+				}
+			})
+			.collect()
+	};
+	ops.push(Op::Commit(tx2));
+	ops.push(Op::Step(Stage::ProcessCommits));
+	ops.push(Op::Step(Stage::Flush));
+	ops.push(Op::Step(Stage::EnactAll));
+	filler(&mut ops, r);
+	ops.push(Op::Step(Stage::Clean));
+	ops.push(Op::Commit(tx3));
+	ops.push(Op::Step(Stage::ProcessCommits));
+	ops.push(Op::Step(Stage::Flush));
+	ops.push(Op::Step(Stage::EnactAll));
+	ops.push(Op::Step(Stage::EnactAll));
+	let inner = Box::new(Op::Step(Stage::Clean));
+	if scenario == "ioerr" {
+		let tryio = r.chance(1, 2);
+		ops.push(Op::IoErr { inner, after: r.below(14) as u32, errno: libc::EIO, tryio, space_only: false });
+	} else {
+		let kind = if scenario == "power" || (scenario == "struct" && cfg.sync_wal && r.chance(1, 2)) {
+			let (p_num, p_den) = *r.pick(&[(0u32, 10u32), (1, 10), (5, 10), (9, 10), (10, 10)]);
+			CrashKind::Power { p_num, p_den }
+		} else {
+			CrashKind::Proc
+		};
+		ts.on_crash();
+		ops.push(Op::Crash {
+			inner,
+			plan: CrashPlan {
+				kind,
+				stride: 1,
+				phase: 0,
+				max: if quick { 16 } else { 40 },
+				adopt: r.below(64) as u32,
+				boundary: false,
+				recrash: 0,
+			},
+		});
+	}
+	ops
 }
 
 /// Scripted prefix for the tree-lock scenario (the rest of the run is random as usual): a tree
